@@ -22,6 +22,13 @@ def numProj (c : Cfg) (lengths : List Rat) (bias : Rat) (heights : List Rat) : S
   | .ok st => toString st.counter
   | .error _ => "E"
 
+/-- what the op `pwlp.call` (the op the correspondence harness ties to the real
+`PWLCalibrationConstraints(...)(w)` / `project_all_constraints`) evaluates for one kernel column
+`col = bias :: heights`; `none` = malformed (empty column). The printed reply is `showRes` of it. -/
+def callResult (m cv : Int) (lo hi : Option Rat) (cmin cmax : Bool) (ls : List Rat) (it : Nat)
+    (col : List Rat) : Option (Except Err (Rat × List Rat)) :=
+  (splitCol col).map fun bh => constraintsCall m cv lo hi cmin cmax ls it bh.1 bh.2
+
 def handlers : List (String × Handler) := [
   -- PWLCalibrationConstraints(...)(w) wired through convert_all_constraints, one column
   ("pwlp.call", fun args => match args with
@@ -32,7 +39,7 @@ def handlers : List (String × Handler) := [
       let (b, hs) ← splitCol col
       let r := convertAllConstraints lo hi cmin cmax
       let c : Cfg := ⟨m, cv, r.1, r.2.1, r.2.2.1, r.2.2.2⟩
-      let out := constraintsCall m cv lo hi cmin cmax ls it b hs
+      let out ← callResult m cv lo hi cmin cmax ls it col
       let okTok := match out with
         | .ok o => s!"{showBool (monoOkB m o.2)}{showBool (boundsOkB c o.1 o.2)}"
         | .error _ => "EE"
